@@ -44,6 +44,8 @@ C13_RoundTrip == T.e = "rt" =>
   /\ Check("the value read back from metadata differs from the value written", (T.st1 = "ok" /\ T.st2 = "ok") => (T.am2 = T.am1 /\ T.tx2 = T.tx1))
   /\ Check("the value passed as a plain variable differs from the value written", (T.st1 = "ok" /\ T.st3 = "ok") => (T.am3 = T.am1 /\ T.tx3 = T.tx1))
   /\ Check("transaction metadata does not serialise to the account-metadata text", T.st1 = "ok" => (T.tx1 = T.am1 /\ T.txj1 = T.am1))
+  /\ Check("two different values of one type are stored as the same text (it cannot be read back as both)",
+           (T.st1 = "ok" /\ "sibam" \in DOMAIN T) => \A i \in 1..Len(T.sibam) : T.sibam[i] # T.am1)
 \* ---- scaling lift (C06 beyond TLC's integers): an exact split multiplied by a huge factor U gives U times the shares
 C06_Scaled == T.e = "scale" =>
   \/ (T.st = "ok" /\ T.equal)
